@@ -88,6 +88,24 @@ def check_case(res, rng, metric, kind):
         res.violation(key + ":value-" + probs[0][0], probs[0][1], case)
 
 
+def epsilon_case(res, rng):
+    """search_epsilon is part of the contract: with epsilon 0.0 (pure greedy search, a legal and *falsy* value) on data
+    where 0.0 and the default 0.1 find different neighbours, transform must equal query(..., epsilon=0.0)"""
+    n, dim, k = 1200, 30, 8
+    X = rng.standard_normal((n, dim)).astype(np.float32); Q = rng.standard_normal((150, dim)).astype(np.float32)
+    t = PyNNDescentTransformer(n_neighbors=k, search_epsilon=0.0, random_state=int(rng.integers(10 ** 6)), n_jobs=None)
+    t.fit(X)
+    Tt = t.transform(Q)
+    qi, qd = t.index_.query(Q, k=k, epsilon=0.0)
+    q1, _ = t.index_.query(Q, k=k, epsilon=0.1)
+    case = {"n": n, "dim": dim, "k": k, "search_epsilon": 0.0}
+    res.case(("epsilon0", n, dim, k, X.tobytes()[:64]), nontrivial=not np.array_equal(qi, q1), sample={**case, "rows_differing_between_eps_0_and_0.1": int((qi != q1).any(axis=1).sum())})
+    res.count("epsilon_zero_case"); res.traces += 1
+    if csr_triples(Tt) != expect_triples(qi, qd):
+        res.violation("transformer:dense32:euclidean:transform-epsilon", "transform with search_epsilon=0.0 does not store what "
+                      "index_.query(X, k, epsilon=0.0) returns", case)
+
+
 def run(res, tier, seed, search):
     rng = np.random.default_rng(seed + 1818)
     res.rule = ("(metric, data kind) x sizes x transformer parameters (n_neighbors, search_epsilon, metric_kwds, tree_init, low_memory, n_jobs); "
@@ -96,6 +114,7 @@ def run(res, tier, seed, search):
     nc, reps = (3, 2) if tier == "quick" else (len(COMBOS), 5)
     if search:
         reps *= 3
+    epsilon_case(res, rng)
     start = (seed * nc) % len(COMBOS)
     for i in range(nc):
         metric, kind = COMBOS[(start + i) % len(COMBOS)]
